@@ -34,6 +34,13 @@ type RenderOpts struct {
 	// PhName names the placeholder a message child gets (set by the message model).
 	PhName   func(m *Msg, child Node) string
 	MaxSteps int
+	// Notes, if set, receives facts the comparison needs (e.g. that break opportunities were inserted).
+	Notes *RenderNotes
+}
+
+// RenderNotes are side results of a reference render.
+type RenderNotes struct {
+	Wbr bool // an insertWordBreaks directive ran: <wbr> positions are not modelled, compare with <wbr> removed
 }
 
 type renderer struct {
@@ -75,7 +82,8 @@ func Text(segs []Seg) string {
 	return b.String()
 }
 
-func effectiveAutoescape(f *File, t *Template) bool {
+// EffectiveAutoescape reports whether prints in the template are autoescaped.
+func EffectiveAutoescape(f *File, t *Template) bool {
 	mode := f.Autoescape
 	if t.Autoescape != "" {
 		mode = t.Autoescape
@@ -89,7 +97,7 @@ func (r *renderer) template(f *File, t *Template, passed []map[string]Value) Sta
 	env.nextID = &n
 	env.Vars = append(env.Vars, passed...)
 	env.Push() // the template's own block
-	s := &rstate{env: env, params: passed, autoescape: effectiveAutoescape(f, t), file: f}
+	s := &rstate{env: env, params: passed, autoescape: EffectiveAutoescape(f, t), file: f}
 	return r.block(s, t.Body, false)
 }
 
@@ -327,8 +335,21 @@ func (r *renderer) print(s *rstate, n *Print) Status {
 				}
 			}
 			txt = Truncate(txt, int(args[0].I), ell)
+		case "changeNewlineToBr":
+			if len(args) != 0 {
+				return OOD
+			}
+			txt = strings.NewReplacer("\r\n", "<br>", "\r", "<br>", "\n", "<br>").Replace(EscapeHTML(txt))
+		case "insertWordBreaks":
+			if len(args) != 1 || args[0].K != KInt || args[0].I < 1 {
+				return OOD
+			}
+			txt = EscapeHTML(txt)
+			if r.opts.Notes != nil {
+				r.opts.Notes.Wbr = true
+			}
 		default:
-			return OOD // other directives have their own oracles (C03, C16)
+			return OOD // other directives have their own oracles (C16)
 		}
 		if CancelsAutoescape[d.Name] {
 			escape = false
